@@ -88,6 +88,21 @@ def run(ctx):
                         is_call(parts[1][1], name="encode_group_commitments") and parts[1][1][2][0] == ("arg", 2))
         ctx.check(good, "SEQ", f.key, "alpha==H(seed||encode(commitments))",
                   "the randomizer must be hash_randomizer(seed || encode_group_commitments(all commitments)): %s" % (fmt(ts[0])[:200] if ts else ""), f.loc)
+    # the (deprecated) package-based constructor: the randomizer is hash_randomizer(drawn scalar || the whole serialized signing
+    # package) — message AND every commitment — read at the public function through the private worker
+    f = ctx.anchor(RR + "Randomizer::<C>::new")
+    if f:
+        pays = [unwrap_newtypes(x) for x in ok_of(P, [t for t in tail_results(P, f, FnView.get(P, f))][0])] if tail_results(P, f, FnView.get(P, f)) else []
+        good = len(pays) == 1 and pays[0][0] == "some" and is_call(pays[0][1], name="hash_randomizer")
+        if good:
+            parts = flatten(pays[0][1][2][0])
+            drawn = lambda x: is_call(x, name="serialize") and is_call(x[2][0], name="random") and x[2][0][2] and x[2][0][2][0] == ("arg", 1)
+            whole = lambda x: x[0] == "ok" and is_call(x[1]) and x[1][1].rsplit("::", 1)[-1] in ("serialize", "to_allocvec") and \
+                len(x[1][2]) == 1 and x[1][2][0] == ("arg", 2)
+            good = len(parts) == 2 and drawn(parts[0]) and whole(parts[1])
+        ctx.check(good, "SEQ", f.key, "alpha==H(drawn||serialize(whole signing package))",
+                  "Randomizer::new must hash the drawn scalar together with the complete serialized signing package (message and every "
+                  "commitment), not a part of it: %s" % ([fmt(p)[:60] for p in flatten(pays[0][1][2][0])] if pays and pays[0][0] == "some" and is_call(pays[0][1]) else pays and fmt(pays[0])[:120]), f.loc)
     f = ctx.anchor(RR + "Randomizer::<C>::new_from_commitments")
     if f:
         ts = ret_terms(P, f)
